@@ -356,6 +356,42 @@ fn check_delay(ctx: &mut Ctx, idx: u64, r: &mut Rng) -> Option<(String, J)> {
 			));
 		}
 	}
+	// a level-dependent effect in the feedback loop (hard or soft clip, loud impulses): the documented order is
+	// delay line -> feedback effects -> feedback gain -> back into the line / out as the wet signal
+	if r.chance(0.35) {
+		let kind = *r.pick(&[DistortionKind::HardClip, DistortionKind::SoftClip]);
+		let fb_db = r.f32_in(-12.0, -1.0);
+		let mix = *r.pick(&[1.0f32, 0.5, 0.3]);
+		let spec = FxSpec::Delay { time_s, feedback_db: fb_db, mix, inner: vec![FxSpec::Distortion { kind, drive_db: 0.0, mix: 1.0 }] };
+		let n = (d_frames * 4 + 20).min(12000);
+		let mut x = vec![Frame::ZERO; n];
+		x[0] = Frame::new(4.0, -2.5);
+		if n > 5 {
+			x[5] = Frame::new(-3.0, 0.75);
+		}
+		let y = run_effect(&spec, sr, ibs, &x, &[ibs]);
+		let clip = |v: f64| match kind {
+			DistortionKind::HardClip => v.clamp(-1.0, 1.0),
+			DistortionKind::SoftClip => v / (1.0 + v.abs()),
+		};
+		let g = db_to_amp(fb_db as f64);
+		let m = (mix as f64).clamp(0.0, 1.0);
+		let mut line: Vec<(f64, f64)> = vec![(0.0, 0.0); d_frames];
+		ctx.count("delay_nonlinear_feedback_frames", n as u64);
+		for i in 0..n {
+			let read = line[i % d_frames];
+			let fbv = (clip(read.0) * g, clip(read.1) * g);
+			line[i % d_frames] = (x[i].left as f64 + fbv.0, x[i].right as f64 + fbv.1);
+			let (wl, wr) = (fbv.0 * m.sqrt() + x[i].left as f64 * (1.0 - m).sqrt(), fbv.1 * m.sqrt() + x[i].right as f64 * (1.0 - m).sqrt());
+			let tol = 1e-5 * (wl.abs().max(wr.abs())) + 1e-7;
+			if (y[i].left as f64 - wl).abs() > tol || (y[i].right as f64 - wr).abs() > tol {
+				return Some((
+					format!("delay of {} frames (sr {}, feedback {:.2} dB, mix {:.2}) with a {:?} in its feedback loop: frame {} is ({:e},{:e}); delay line -> effect -> feedback gain gives ({:e},{:e})", d_frames, sr, fb_db, mix, kind, i, y[i].left, y[i].right, wl, wr),
+					detail(&spec, sr, "order of feedback effects and feedback gain"),
+				));
+			}
+		}
+	}
 	if ctx.want_sample() && idx % 7 == 2 {
 		ctx.sample(detail(&spec, sr, "delay: impulse response vs echoes at k*D scaled by feedback^k"));
 	}
